@@ -109,8 +109,6 @@ func wiring(c *core.Ctx, it *interp, wrap, fkey *core.Fn) {
 	info := it.info
 	gmk := it.fn
 	g := cfgq.Of(c.Program, gmk)
-	numObj := objOf(info, it.num)
-
 	// ---- R5 key predicate
 	calls := core.Calls(it.keyLoop.Body, info, func(_ *ast.CallExpr, o types.Object) bool { return o == types.Object(fkey.Obj) })
 	if len(calls) != 1 || len(calls[0].Args) != 1 {
@@ -170,7 +168,6 @@ func wiring(c *core.Ctx, it *interp, wrap, fkey *core.Fn) {
 		// ---- R4 pass <=> number > 0
 		passVerdict(c, it, g, keepFact(false))
 	}
-	_ = numObj
 
 	// ---- R4 wrapper
 	winfo := wrap.Pkg.TypesInfo
@@ -194,8 +191,11 @@ func wiring(c *core.Ctx, it *interp, wrap, fkey *core.Fn) {
 		return
 	}
 	cmdParam, argvParam := winfo.Defs[wps[0]], winfo.Defs[wps[1]]
-	c.Check("R4.verdict", "HandleFilterKeyWithCommand/interprets-argv", gmCall.Pos(), objOf(winfo, gmCall.Args[1]) == argvParam,
-		"getMatchKeys must rewrite the argument vector the wrapper was given")
+	if objOf(winfo, gmCall.Args[1]) == argvParam {
+		c.Okf("R4.verdict", "HandleFilterKeyWithCommand/interprets-argv", gmCall.Pos(), "getMatchKeys rewrites the argument vector the wrapper was given")
+	} else {
+		c.Undecidedf("R4.verdict", "HandleFilterKeyWithCommand/interprets-argv", gmCall.Pos(), "getMatchKeys is not applied to the wrapper's argument vector itself")
+	}
 	// lookup: node, ok := table[cmd]
 	var lookup *ast.AssignStmt
 	if o := objOf(winfo, gmCall.Args[0]); o != nil {
@@ -213,7 +213,9 @@ func wiring(c *core.Ctx, it *interp, wrap, fkey *core.Fn) {
 	case lookup == nil:
 		c.Undecidedf("R4.verdict", "HandleFilterKeyWithCommand/unknown-command-unchanged", wrap.Decl.Pos(), "cannot find the table lookup")
 	case objOf(winfo, ast.Unparen(lookup.Rhs[0]).(*ast.IndexExpr).Index) != cmdParam:
-		c.Check("R4.verdict", "HandleFilterKeyWithCommand/unknown-command-unchanged", lookup.Pos(), false, "the table is not indexed by the command name the wrapper was given: the wrong key spec is applied")
+		c.Undecidedf("R4.verdict", "HandleFilterKeyWithCommand/unknown-command-unchanged", lookup.Pos(), "the table is not indexed by the wrapper's command-name parameter itself")
+	case len(lookup.Lhs) == 1 && nodeTested(winfo, wrap.Decl.Body, objOf(winfo, lookup.Lhs[0])):
+		c.Undecidedf("R4.verdict", "HandleFilterKeyWithCommand/unknown-command-unchanged", lookup.Pos(), "the lookup has no comma-ok test; cannot interpret the test made on the entry instead")
 	case len(lookup.Lhs) == 1:
 		c.Check("R4.verdict", "HandleFilterKeyWithCommand/unknown-command-unchanged", lookup.Pos(), false, "the table lookup has no presence test: a command absent from the table yields the zero entry (keystep 0) and the key loop never terminates / the command is mangled instead of being forwarded unchanged")
 	default:
@@ -272,7 +274,10 @@ func wiring(c *core.Ctx, it *interp, wrap, fkey *core.Fn) {
 	wrapperNeg, wrapperKnown := false, false
 	for _, p := range wg.Points(func(n ast.Node) bool { _, ok := n.(*ast.ReturnStmt); return ok }) {
 		r := p.Node().(*ast.ReturnStmt)
-		key := "HandleFilterKeyWithCommand/returns"
+		key := "HandleFilterKeyWithCommand/returns/rebuilt"
+		if len(r.Results) == 2 && objOf(winfo, r.Results[0]) == argvParam {
+			key = "HandleFilterKeyWithCommand/returns/unchanged"
+		}
 		if len(r.Results) != 2 {
 			c.Undecidedf("R4.verdict", key, r.Pos(), "unrecognised return %s", c.Src(r))
 			continue
@@ -297,7 +302,7 @@ func wiring(c *core.Ctx, it *interp, wrap, fkey *core.Fn) {
 		case pat.Same(winfo, r.Results[0], gmAs.Lhs[0]):
 			c.Undecidedf("R4.verdict", key, r.Pos(), "unrecognised verdict expression %s", c.Src(r.Results[1]))
 		default:
-			c.Check("R4.verdict", key, r.Pos(), false, fmt.Sprintf("after filtering, the wrapper returns %s instead of the vector rebuilt by getMatchKeys: rejected keys are forwarded", c.Src(r.Results[0])))
+			c.Undecidedf("R4.verdict", key, r.Pos(), "unrecognised return %s", c.Src(r))
 		}
 	}
 	caller(c, wrap, wrapperNeg, wrapperKnown)
@@ -390,10 +395,7 @@ func passVerdict(c *core.Ctx, it *interp, g *cfgq.Graph, kept func(cfgq.Fact) bo
 		}
 		if v, isC := boolConst(info, e); isC {
 			if !v {
-				// pass = false must not follow pass = true
-				w := g.Path(cfgq.Query{From: g.Entry(), Target: func(n ast.Node) bool { return n == p.Node() }, Avoid: nil})
-				_ = w
-				c.Okf("R4.verdict", key, pos, "verdict initialised to false")
+				c.Okf("R4.verdict", key+"/init-false", pos, "verdict initialised to false")
 				continue
 			}
 			okSome, _ := onlyVia(g, p, some)
@@ -407,18 +409,18 @@ func passVerdict(c *core.Ctx, it *interp, g *cfgq.Graph, kept func(cfgq.Fact) bo
 				}})
 			switch {
 			case okSome || okKept:
-				c.Okf("R4.verdict", key, pos, "verdict set to true only when at least one key was kept")
+				c.Okf("R4.verdict", key+"/true-only-if-kept", pos, "verdict set to true only when at least one key was kept")
 			case okNone:
-				c.Check("R4.verdict", key, pos, false, "the verdict is set to true exactly when NO key passed: commands whose keys all fail the filter are forwarded (with no keys), the others dropped", wn...)
+				c.Check("R4.verdict", key+"/true-only-if-kept", pos, false, "the verdict is set to true exactly when NO key passed: commands whose keys all fail the filter are forwarded (with no keys), the others dropped", wn...)
 			case free != nil:
-				c.Check("R4.verdict", key, pos, false, "the verdict is set to true on a path that neither kept a key nor consulted the number of kept keys: a command none of whose keys passes the filter is forwarded (e.g. `DEL k` with k blacklisted is sent as `DEL`)", free...)
+				c.Check("R4.verdict", key+"/true-only-if-kept", pos, false, "the verdict is set to true on a path that neither kept a key nor consulted the number of kept keys: a command none of whose keys passes the filter is forwarded (e.g. `DEL k` with k blacklisted is sent as `DEL`)", free...)
 			default:
-				c.Undecidedf("R4.verdict", key, pos, "cannot see that the verdict is true only when a key was kept")
+				c.Undecidedf("R4.verdict", key+"/true-only-if-kept", pos, "cannot see that the verdict is true only when a key was kept")
 			}
 			continue
 		}
 		if ok, good := direct(e); ok {
-			c.Check("R4.verdict", key, pos, good, fmt.Sprintf("the verdict must be `kept > 0` (found %s): otherwise commands without a passing key are forwarded or commands with one are dropped", c.Src(e)))
+			c.Check("R4.verdict", key+"/expression", pos, good, fmt.Sprintf("the verdict must be `kept > 0` (found %s): otherwise commands without a passing key are forwarded or commands with one are dropped", c.Src(e)))
 		} else {
 			c.Undecidedf("R4.verdict", key, pos, "unrecognised verdict expression %s", c.Src(e))
 		}
@@ -564,4 +566,27 @@ func caller(c *core.Ctx, wrap *core.Fn, wrapperNeg, wrapperKnown bool) {
 		c.Check("R4.caller", key, call.Pos(), onlyIfFalse == wrapperNeg,
 			fmt.Sprintf("the wrapper returns %s and the caller forwards only when that value is %v: commands whose keys pass are dropped and commands with no passing key are forwarded", map[bool]string{true: "!pass", false: "pass"}[wrapperNeg], !onlyIfFalse))
 	}
+}
+
+// nodeTested: some branch condition mentions the looked-up entry.
+func nodeTested(info *types.Info, body ast.Node, o types.Object) bool {
+	hit := false
+	ast.Inspect(body, func(n ast.Node) bool {
+		var cond ast.Expr
+		switch x := n.(type) {
+		case *ast.IfStmt:
+			cond = x.Cond
+		case *ast.CaseClause:
+			for _, e := range x.List {
+				if mentionsObj(info, e, o) {
+					hit = true
+				}
+			}
+		}
+		if cond != nil && mentionsObj(info, cond, o) {
+			hit = true
+		}
+		return true
+	})
+	return hit
 }
